@@ -253,6 +253,75 @@ theorem trace_thread_order (s : Sys σ) (sched : List ThreadId) (u : ThreadId) :
       have hne : (t == u) = false := by simp; exact fun e => hut e.symm
       cases stepBlk s t <;> simp [tracedBy, hne]
 
+/-! ## Invariants from blocks -/
+
+theorem blocksOf_append (p q : List (Instr σ)) : blocksOf (p ++ q) = blocksOf p ++ blocksOf q := by
+  induction p with
+  | nil => rfl
+  | cons i p ih => cases i <;> simp [blocksOf, ih]
+
+theorem mem_blocksOf_flatten (ps : List (List (Instr σ))) (f : σ → σ) (h : f ∈ blocksOf ps.flatten) :
+    ∃ p ∈ ps, f ∈ blocksOf p := by
+  induction ps with
+  | nil => simp [blocksOf] at h
+  | cons p r ih =>
+    simp only [List.flatten_cons, blocksOf_append, List.mem_append] at h
+    rcases h with h | h
+    · exact ⟨p, by simp, h⟩
+    · obtain ⟨q, hq, hf⟩ := ih h
+      exact ⟨q, List.mem_cons_of_mem _ hq, hf⟩
+
+/-- every block still to be executed by some thread preserves `P` -/
+def BlocksPreserve (P : σ → Prop) (s : Sys σ) : Prop :=
+  ∀ th ∈ s.thr, ∀ f ∈ blocksOf th.prog, ∀ x, P x → P (f x)
+
+/-- **Invariant rule.** A predicate on the shared state that holds initially and is preserved by every block of
+every thread's program holds after ANY schedule. -/
+theorem inv_of_blocks (P : σ → Prop) (s0 : Sys σ) (h0 : P s0.sh) (hB : BlocksPreserve P s0)
+    (sched : List ThreadId) : P (run s0 sched).sh := by
+  have key : P (run s0 sched).sh ∧ BlocksPreserve P (run s0 sched) := by
+    refine run_induction (P := fun s => P s.sh ∧ BlocksPreserve P s) ?_ s0 ⟨h0, hB⟩ sched
+    intro s t s' ⟨hP, hBs⟩ hs
+    cases hth : s.thr[t]? with
+    | none => rw [step_none_thr s t hth] at hs; cases hs
+    | some th =>
+      have hmem : th ∈ s.thr := List.mem_of_getElem? hth
+      cases hp : th.prog with
+      | nil => rw [step_nil s t th hth hp] at hs; cases hs
+      | cons i p =>
+        have hsub : ∀ f ∈ blocksOf p, ∀ x, P x → P (f x) := by
+          intro f hf
+          apply hBs th hmem f
+          rw [hp]
+          cases i <;> simp [blocksOf, hf]
+        have hset : ∀ (x : σ) (th' : Thread σ), th'.prog = p →
+            BlocksPreserve P { sh := x, thr := s.thr.set t th' } := by
+          intro x th' hth' th'' hmem'' f hf
+          rcases List.mem_or_eq_of_mem_set hmem'' with h1 | h1
+          · exact hBs th'' h1 f hf
+          · subst h1; rw [hth'] at hf; exact hsub f hf
+        cases i with
+        | acq l =>
+          rw [step_acq s t th l p hth hp] at hs
+          split at hs
+          · simp only [Option.some.injEq] at hs
+            subst hs
+            exact ⟨hP, hset _ _ rfl⟩
+          · cases hs
+        | rel l =>
+          rw [step_rel s t th l p hth hp] at hs
+          simp only [Option.some.injEq] at hs
+          subst hs
+          exact ⟨hP, hset _ _ rfl⟩
+        | blk f =>
+          rw [step_blk s t th f p hth hp] at hs
+          simp only [Option.some.injEq] at hs
+          subst hs
+          refine ⟨?_, hset _ _ rfl⟩
+          apply hBs th hmem f _ _ hP
+          rw [hp]; simp [blocksOf]
+  exact key.1
+
 /-! ## Mover lemma -/
 
 theorem applyAll_swap (a b : ThreadId × (σ → σ)) (pre post : List (ThreadId × (σ → σ)))
